@@ -86,6 +86,26 @@ def worst : Nat → Nat → Nat
 /-- `max(min(x, MAX), MIN)` -/
 def clamp (x : Nat) : Nat := max (min x Generated.Dns.maxDnsTimeoutMs) Generated.Dns.minDnsTimeoutMs
 
+/-- what a write of the adaptive `DNS_TIMEOUT` stores, given the value computed from the measured durations:
+    clamped when the source clamps every write (regenerated), the raw value otherwise -/
+def storedTimeout (computed : Nat) : Nat :=
+  if Generated.Net.timeoutUpdatesClamped then clamp computed else computed
+
+/-! ### idle timers of an upstream TCP connection -/
+
+structure Timers where
+  lastSend : Nat
+  lastRecv : Nat
+deriving Repr
+
+/-- opening a connection at `now`; without the reset it would inherit the previous connection's timestamps -/
+def connect (now : Nat) (old : Timers) : Timers :=
+  if Generated.Net.muxConnectResetsTimers then { lastSend := now, lastRecv := now } else old
+
+/-- either watchdog (`sleep_until(last_* + idle)`) has expired at `t` -/
+def watchdogFires (c : Timers) (t : Nat) : Bool :=
+  decide (c.lastSend + Generated.Net.muxIdleSeconds ≤ t) || decide (c.lastRecv + Generated.Net.muxIdleSeconds ≤ t)
+
 /-! ### reply source address -/
 
 /-- the octets of a `u32` in memory -/
